@@ -46,10 +46,47 @@ def classify(kind, rec, mir):
     return None
 
 
+def aliasing_probe():
+    """A test, not part of the model: the members of an n-tuple / object are fixed when it is built; changing the
+    caller's list / dict afterwards must not make a position or field exist that the recorded value does not have."""
+    from nada_dsl import Party, Input, SecretInteger, PublicInteger, NTuple, Object
+    from ..real.env import reset_globals
+    reset_globals()
+    p = Party("P")
+    a, b, c = SecretInteger(Input("a", p)), SecretInteger(Input("b", p)), PublicInteger(Input("c", p))
+    bad = []
+    fields = [a, b]
+    t = NTuple.new(fields)
+    fields.append(c)
+    try:
+        t[2]
+        bad.append("fields=[a,b]; t=NTuple.new(fields); fields.append(c): t[2] was accepted although t has two members")
+    except IndexError:
+        pass
+    d = {"k": a}
+    o = Object.new(d)
+    d["z"] = c
+    try:
+        getattr(o, "z")
+        bad.append("d={'k':a}; o=Object.new(d); d['z']=c: o.z was accepted although o has no field z")
+    except AttributeError:
+        pass
+    reset_globals()
+    return bad
+
+
 def run(res, tier):
+    for text in aliasing_probe():
+        res.violation({"property": "C12", "kind": "aliasing", "text": text}, "aliasing: " + text)
     gc.run_graph(res, tier, "C12", oracle, project, classify)
 
 
 def replay(obj):
+    if obj.get("kind") == "aliasing":
+        bad = aliasing_probe()
+        print(bad or "ok")
+        if bad:
+            print("VIOLATION property=C12 replay=(replayed)")
+        return 1 if bad else 0
     _seen.clear()
     return gc.replay_graph(obj, "C12", oracle)
